@@ -59,7 +59,7 @@ def run(ctx):
         cases = [c for i, c in enumerate(cases) if i % 2 == ctx.seed % 2]
     ctx.sweep(cases, check_case)
     ctx.extra["sweep_cases"] = len(cases)
-    e1common.generated(ctx, check_case, n=ctx.pick(500, 20000), profile="replay")
+    e1common.generated(ctx, check_case, n=ctx.pick(500, 20000), profile="replay_data")
 
 
 def replay(case):
